@@ -36,6 +36,25 @@ def telescope_inv(v, sv):
 
 
 REG.invariants['Telescope'] = telescope_inv
+REG.zero_at_init['Telescope'] = [('unlogged_instrument', 'int')]
+
+
+def _tel_init_req(c):
+    from . import config as _config
+    cc = Ctx(c.eng, SV(c.eng, c.o.config._s, {'self': c.o.config._v}), None)
+    r = [x for x in REG.contracts['Config.parse_instrument_config'].requires(cc)]
+    return r + [('assume:configured-array-total-nonnegative', c.o.config.instrument['telescope']['total_arrays'].t >= 0)]
+
+
+# Telescope.__init__ establishes the telescope invariant from a well-formed configuration
+REG.contract('Telescope.__init__', params={'env': 'env', 'config': 'obj:Config', 'planner': 'any', 'scheduler': 'any'},
+             requires=_tel_init_req,
+             world=lambda eng: {'self': __import__('pyvc.state', fromlist=['ObjV']).ObjV('Telescope', {}, 'Telescope')},
+             ensures=lambda c: [('C08-no-arrays-in-use', z3.And(c.n.self.telescope_use.t == 0, z3.Not(c.n.self.telescope_status.t))),
+                                ('C13-no-events', c.n.self.events.n == 0),
+                                ('one-observation-per-configured-entry', c.n.self.observations.n == c.o.config.instrument['telescope']['observations'].n)],
+             raises={'KeyError': dict(when=None, unchanged=False)},
+             invariants='post', modifies=['*'], props=['C08', 'C13', 'C19'])
 
 REG.contract('Telescope._add_event', world=TW, params={'observation': 'Observation', 'resource': 'str', 'event': 'str'},
              ensures=_add_event_ens('instrument'), ghost=_add_event_ghost('instrument'), modifies=['self.events', 'ghost:unlogged_instrument'],
